@@ -152,7 +152,9 @@ def run(ctx, prop):
 
 
 def confirm(ctx, prop, bins, d, bad, origin):
-    """Re-execute each deviating case once on both builds; report if it shows again."""
+    """Re-execute each deviating case on both builds and let TLC judge the fresh record;
+    it is a violation only if the real code deviates again (the observation itself may
+    differ between runs, e.g. bytes read from unrelated memory)."""
     seen = 0
     for c, a, p in bad:
         key = failure_key(prop, c, a, p)
@@ -162,15 +164,24 @@ def confirm(ctx, prop, bins, d, bad, origin):
         if seen > 25:
             break
         one = os.path.join(d, "one.ndjson")
-        c1 = dict(c)
-        vlib.write_ndjson(one, [c1])
-        ra, rp = run_cases(bins, one, d, "one")
-        a2 = {k: ra[c["id"]][k] for k in OBS}
-        p2 = {k: rp[c["id"]][k] for k in OBS}
-        if (a2, p2) != (a, p):
+        vlib.write_ndjson(one, [c])
+        again = False
+        for attempt in range(3):
+            ra, rp = run_cases(bins, one, d, "one")
+            a2 = {k: ra[c["id"]][k] for k in OBS}
+            p2 = {k: rp[c["id"]][k] for k in OBS}
+            tp = os.path.join(d, "one-trace.ndjson")
+            vlib.write_ndjson(tp, [{"ev": "decode", "case": c["id"], "src": c["src"], "dict": c["dict"],
+                                    "dstLen": c["dstLen"], "a": a2, "p": p2}])
+            sub = vlib.Ctx(ctx.prop, ctx.tier, ctx.seed)
+            acc, rej = vlib.validate_trace(sub, "LZ4Block_Trace", tp, cfg="LZ4Block_Trace_" + prop, shards=1)
+            if rej:
+                again = True
+                break
+        if not again:
             raise vlib.MachineryFault("deviation not reproducible for case %s" % json.dumps(c)[:300])
         ctx.violation(key, "block decode deviates (%s case): %s" % (origin, key),
-                      {"kind": "blockdec", "property": prop, "case": c, "asm": a, "portable": p})
+                      {"kind": "blockdec", "property": prop, "case": c, "asm": a2, "portable": p2})
 
 
 def replay(ctx, prop, path):
